@@ -24,6 +24,6 @@ Deliverables, in {wt}/SEED/ :
 You must verify all of this yourself:
  1. `go build ./...` succeeds. Packages dbms, builtin, tests, the root package and the tests of core need the git-ignored files dbms/server.crt and dbms/server.key: copy them from /tmp/seedtools/certs/ into {wt}/dbms/ (never put them in the patch).
  2. The existing tests still pass with your change: run `VERIF_REPO={wt} python3 /tmp/seedtools/baseline_cmp.py ./<affected package dirs>/...` — it runs go test on those packages and compares with the project's pinned list of stable tests; it must print no "NOT PASSING" line. (Some packages have unrelated pre-existing failures, e.g. tests needing a missing suneido.db; the script accounts for that. Do not run plain `go test ./db19/` — it contains a 2 GB test; use -run/-skip or the script.) Also run the changed package's own unit tests before and after your change and make sure you introduce no new failure.
- 3. The demonstration fails with the change and passes without it (e.g. `git stash` the source change, run, `git stash pop`).
+ 3. The demonstration fails with the change and passes without it (save the change with `git diff > /tmp/<your-worktree-name>.diff`, undo it with `git apply -R`, run, re-apply with `git apply`; do NOT use `git stash`: the stash is shared between all worktrees of the repository and other jobs use it concurrently).
 Environment: `export GOFLAGS=-mod=mod GOPROXY=off` in every shell call; do not set GOSUMDB or GOTOOLCHAIN; there is no network. The machine is shared with other jobs: be economical (target packages, -run filters, no repeated full runs).
 Do not commit. Final message: what you changed and why it breaks the property, what it needs to manifest, and the verification results.""")
